@@ -1,32 +1,8 @@
 import Rq.Thm.C02
-/-! Helper lemmas for `Rq.C02.piSolverChecked_sound` / `Rq.C02.attempt_iff_checked`: the internal
-symbol ids of the rows the decoder builds are 32-bit values (so `fullSystem_wf` / `binSystem_wf`
-apply), and the systems have `sp.l` columns. -/
+/-! Helper lemmas for `Rq.C02.piSolverChecked_sound` / `Rq.C02.attempt_iff_checked`: the systems have
+`sp.l` columns (`isisOf_lt`, the 32-bit bound of the internal symbol ids, lives in `Rq/Thm/C02.lean`). -/
 namespace Rq.C02
 open Rq
-
-theorem isisOf_lt (d : BlockDec) (e : BlockEnc) (t : Nat) (h : Tracks d e t) (he : GoodEnc e t) :
-    ∀ x ∈ isisOf d e.sp, x < 2 ^ 32 := by
-  obtain ⟨hk, hkp, hl, hleq, _⟩ := sysParams_facts _ _ he.params
-  intro isi hisi
-  unfold isisOf at hisi
-  rw [h.hk] at hisi
-  rcases List.mem_append.mp hisi with h1 | h1
-  · rcases List.mem_append.mp h1 with h2 | h2
-    · have := List.mem_range.mp (List.mem_filter.mp h2).1
-      omega
-    · obtain ⟨j, hj, rfl⟩ := List.mem_map.mp h2
-      have := List.mem_range.mp hj
-      omega
-  · obtain ⟨p, hp, rfl⟩ := List.mem_map.mp h1
-    obtain ⟨hge, hrep⟩ := h.repair_ok p hp
-    unfold BlockEnc.repairPacket at hrep
-    dsimp only at hrep
-    split at hrep
-    · cases hrep
-    · next hlt =>
-      unfold U32 at hlt
-      omega
 
 theorem fullSystem_l (sp : SysParams) (isis : List Nat) (a : System) (h : fullSystem sp isis = some a) :
     a.l = sp.l := by
